@@ -92,7 +92,7 @@ def imaging(
 
     # weights
     if weights is not None:
-        im *= xp.asarray(weights)[..., NAX]
+        im = im * xp.asarray(weights)[..., NAX]
 
     # add up axes
     if reduce is True:
